@@ -2,7 +2,7 @@
    function of the MIR fragment (Syntax.v / Sem.v).  Models in Passes.v mirror the Rust code. *)
 From Coq Require Import ZArith NArith List Bool.
 Import ListNotations.
-From SV Require Import Common.Int32 C02deep.Syntax C02deep.Sem C02deep.Passes C02deep.ProofsSem C02deep.ProofsDce
+From SV Require Import Common.Int32 C02deep.Syntax C02deep.Sem C02deep.SemStruct C02deep.Passes C02deep.ProofsSem C02deep.ProofsDce
   C02deep.ProofsCcp C02deep.ProofsCcpFull C02deep.ProofsCcpWitness C02deep.ProofsLvn C02deep.ProofsWf C02deep.ProofsWfLvn
   C02deep.ProofsCseStatic C02deep.ProofsCse C02deep.ProofsPipeline.
 Open Scope Z_scope.
@@ -275,7 +275,7 @@ Qed.
 
 (* StructInit statements are part of the fragment (structs are immutable values, Sem.v); a function that makes a
    struct and passes it on is under every theorem above; one that also reads a field back is where the two
-   variants of the pass differ (the forwarded load needs `struct_world`, which the theorems do not assume) *)
+   variants of the pass differ (the forwarded load needs a world that is `struct_honest` for the structs of the run, see below) *)
 Definition ex_struct : func :=
   mkfunc [1%N; 2%N]
     [SBin 3%N PLUS (EVar 1%N) (EInt 0);
@@ -300,6 +300,31 @@ Proof.
   split; [vm_compute; reflexivity|]. split; [vm_compute; reflexivity|]. split; [vm_compute; reflexivity|].
   split; [vm_compute; reflexivity|]. split; [vm_compute; reflexivity|].
   split; [intros H; vm_compute in H; discriminate H | vm_compute; reflexivity].
+Qed.
+
+(* Loading a field of a struct gives the field back: `Sem.struct_honest w H` for the structs of H.  (For ALL structs
+   at once this is unsatisfiable - there are more lists of fields than 32-bit references - so it is stated relative
+   to a set, and `SemStruct.honest_run` takes the structs a run actually makes, `SemStruct.made_by`.)  Such worlds
+   exist for every table of at most MAX structs, in particular for runs: *)
+Theorem C02deep_table_world_honest : forall T w0, Z.of_nat (length T) <= MAX ->
+  struct_honest (table_world T w0) (fun tn vs => In (tn, vs) T).
+Proof. exact table_world_honest. Qed.
+Theorem C02deep_honest_run_table : forall m T w0 f args fuel, Z.of_nat (length T) <= MAX ->
+  (forall s, In s (made_by m (table_world T w0) f args fuel) -> In s T) ->
+  honest_run m (table_world T w0) f args fuel.
+Proof. exact honest_run_table. Qed.
+(* non-vacuity: the function whose field load the pass forwards, in an honest world: the run makes one struct, the
+   world is honest for the run, and the output of the pass (with forwarding) behaves like the input *)
+Example C02deep_honest_run_nonvacuous :
+  let w := table_world [(7%N, [5; 6])] ex_world in
+  made_by Wrap w ex_struct_fwd [5; 6] 10 = [(7%N, [5; 6])] /\
+  honest_run Wrap w ex_struct_fwd [5; 6] 10 /\
+  sem Wrap w ex_struct_fwd [5; 6] 10 = Done 6 [(9%N, [1; 6])] /\
+  (exists f' fl, ccp ex_struct_fwd = Some (f', fl) /\ sem Wrap w f' [5; 6] 10 = Done 6 [(9%N, [1; 6])]).
+Proof.
+  cbv zeta. split; [vm_compute; reflexivity|]. split.
+  - apply honest_run_table; [vm_compute; discriminate|]. intros s Hs. vm_compute in Hs. exact Hs.
+  - split; [vm_compute; reflexivity|]. eexists. eexists. split; [vm_compute; reflexivity|]. vm_compute; reflexivity.
 Qed.
 
 (* ---- local value numbering (local_value_numbering.rs): full strength ---- *)
@@ -356,6 +381,8 @@ Print Assumptions C02deep_dce_no_break.
 Print Assumptions C02deep_lvn_no_break.
 Print Assumptions C02deep_ccp_no_break.
 Print Assumptions C02deep_pipeline.
+Print Assumptions C02deep_table_world_honest.
+Print Assumptions C02deep_honest_run_table.
 Print Assumptions C02deep_cse_preserves.
 Print Assumptions C02deep_cse_preserves_mode.
 Print Assumptions C02deep_cse_wf.
